@@ -42,6 +42,9 @@ func (o c14op) String() string {
 	if o.kind == 'S' {
 		return "S"
 	}
+	if o.kind == 'Z' {
+		return "Z"
+	}
 	return fmt.Sprintf("%c(%v)", o.kind, o.d)
 }
 
@@ -61,6 +64,11 @@ func c14runOp(o c14op, out *[]c14obs) {
 		vsched.Work(int64(o.d))
 	case 'S':
 		regexp2.StopTimeoutClock()
+	case 'Z':
+		// from here on this client's atomic loads cost no virtual time: every shim operation is a pure
+		// scheduling point, so the calls that follow interleave freely (a thread may be held up for any
+		// length of time between two of its operations) instead of in the order their costs dictate
+		vsched.Cur().LoadCost = 0
 	case 'L', 'Q':
 		re := regexp2.MustCompile(`(a+)+$`)
 		in := c14long
@@ -251,6 +259,31 @@ func c14Scenarios(tier string) []schedScenario {
 						ppb = 2
 					}
 					mk(fmt.Sprintf("pair P=%v: %v || %v", P, a, b), [][]c14op{a, b}, P, ppb, 0, 0)
+				}
+			}
+		}
+	}
+	// stale clock, free interleaving: client A has let the clock run out (long idle), client B arrives at the same
+	// instant; both switch to zero-cost mode, so their quick timed calls interleave in every order up to the
+	// preemption bound (a thread may be descheduled between any two of its clock operations)
+	for _, x := range []c14op{{'Q', d1}, {'L', d1}, {'Q', d2}} {
+		for _, da := range []time.Duration{d1, d2} {
+			for _, db := range []time.Duration{d1, d2} {
+				long := 1300 * time.Millisecond
+				a := []c14op{x, {'I', long}, {'Z', 0}, {'Q', da}}
+				_, dry := c14exec([][]c14op{a}, 4*time.Millisecond, nil, 0, false)
+				if len(dry[0]) < 2 {
+					continue
+				}
+				b := []c14op{{'I', time.Duration(dry[0][1].t0)}, {'Z', 0}, {'Q', db}}
+				pb := 2
+				if thorough {
+					pb = 3
+				}
+				mk(fmt.Sprintf("stale+free P=4ms: %v || %v", a, b), [][]c14op{a, b}, 4*time.Millisecond, pb, 0, 0)
+				if thorough {
+					b2 := append(append([]c14op{}, b...), c14op{'Q', da})
+					mk(fmt.Sprintf("stale+free P=4ms: %v || %v", a, b2), [][]c14op{a, b2}, 4*time.Millisecond, 2, 0, 0)
 				}
 			}
 		}
